@@ -165,3 +165,116 @@ Fixpoint fits (pc : bool) (k : nat) (e : expr) : Prop :=
       end
   | _ => False
   end.
+
+(* ======================================================================================
+   The POSIX table as data, and the two printers.
+   ====================================================================================== *)
+
+Inductive assoc := ALeft | ARight | ANon.
+
+(* level (higher binds tighter) and associativity of the binary operators *)
+Definition table (op : binop) : nat * assoc :=
+  match op with
+  | BOr => (3, ALeft)
+  | BAnd => (4, ALeft)
+  | BMatch | BNotMatch => (6, ANon)
+  | BEq | BNe | BLt | BLe | BGt | BGe => (7, ANon)
+  | BConcat => (8, ALeft)
+  | BAdd | BSub => (9, ALeft)
+  | BMul | BDiv | BMod => (10, ALeft)
+  | BPow => (12, ARight)
+  end.
+
+(* the remaining rows: 1 assignment (right), 2 ?: (right), 5 in (left), 11 unary + - !,
+   13 ++ --, 14 $, 15 grouping and the other primaries *)
+Definition tlevel (e : expr) : nat :=
+  match e with
+  | EAssign _ _ | EAugAssign _ _ _ => 1
+  | ECond _ _ _ => 2
+  | EBinary op _ _ => fst (table op)
+  | EIn [_] _ => 5
+  | EUnary _ _ => 11
+  | EIncr _ _ _ => 13
+  | EField _ => 14
+  | _ => 15
+  end.
+
+Definition lreq (op : binop) : nat :=
+  let '(lv, a) := table op in match a with ALeft => lv | _ => lv + 1 end.
+Definition rreq (op : binop) : nat :=
+  let '(lv, a) := table op in match a with ARight => lv | _ => lv + 1 end.
+
+Definition is_gt (e : expr) : bool := match e with EBinary BGt _ _ => true | _ => false end.
+Definition is_match (op : binop) : bool := match op with BMatch | BNotMatch => true | _ => false end.
+
+(* pnode full pe e: e with grouping nodes inserted around operands.
+   full = false: only where the operand's level is below what its position requires (pp_min);
+   full = true: around every operand (pp_full).  Lvalue positions and the regex right operand of
+   ~ are never parenthesised (parentheses there change the tree / are not lvalues).
+   pe = the position is "exposed" in a print argument list: an unparenthesised > comparison
+   would be a redirection there, so it is parenthesised. *)
+Fixpoint pnode (full pe : bool) (e : expr) : expr :=
+  let par (pe' : bool) (req : nat) (c : expr) : expr :=
+    if full || (tlevel c <? req) || (pe' && is_gt c) then EGroup (pnode full false c) else pnode full pe' c in
+  match e with
+  | EField i => EField (par pe 14 i)
+  | EIndex a idx => EIndex a (map (par false 0) idx)
+  | EUserCall n args => EUserCall n (map (par false 0) args)
+  | EIn [x] a => EIn [par pe 5 x] a
+  | EIn idx a => EIn (map (par false 0) idx) a
+  | EUnary op v => EUnary op (par pe 11 v)
+  | EBinary op l r =>
+      EBinary op (par pe (lreq op) l)
+        (match r with
+         | EStrRegex _ => if is_match op then r else par pe (rreq op) r
+         | _ => par pe (rreq op) r
+         end)
+  | ECond c t f => ECond (par pe 3 c) (par pe 2 t) (par pe 2 f)
+  | EAssign l r => EAssign (pnode full pe l) (par pe 1 r)
+  | EAugAssign op l r => EAugAssign op (pnode full pe l) (par pe 1 r)
+  | EIncr op pre x => EIncr op pre (pnode full pe x)
+  | EGroup x => pnode full pe x
+  | _ => e
+  end.
+
+Definition par (full pe : bool) (req : nat) (c : expr) : expr :=
+  if full || (tlevel c <? req) || (pe && is_gt c) then EGroup (pnode full false c) else pnode full pe c.
+
+(* the two writings of a whole expression (pe = true: as a print argument) *)
+Definition pp_min (pe : bool) (e : expr) : list tok := flat (par false pe 0 e).
+Definition pp_full (pe : bool) (e : expr) : list tok :=
+  flat (if pe && is_gt e then EGroup (pnode true false e) else pnode true pe e).
+
+(* ---- well-formed trees: those the POSIX grammar can derive and the table speaks about ---- *)
+Definition all_wf (f : expr -> Prop) : list expr -> Prop :=
+  fix go (es : list expr) : Prop := match es with [] => True | x :: r => f x /\ go r end.
+
+Definition aug_op (op : binop) : Prop :=
+  match op with BAdd | BSub | BMul | BDiv | BMod | BPow => True | _ => False end.
+
+Fixpoint wf (e : expr) : Prop :=
+  match e with
+  | ENum _ | EStr _ | ERegex _ | EVar _ => True
+  | EField i => wf i
+  | EIndex _ idx => idx <> [] /\ all_wf wf idx
+  | EUserCall _ args => all_wf wf args
+  | EIn [x] _ => wf x
+  | EIn ((_ :: _ :: _) as idx) _ => all_wf wf idx
+  | EUnary _ v => wf v
+  | EBinary op l r =>
+      wf l /\
+      ((exists s, r = EStrRegex s /\ is_match op = true) \/
+       (wf r /\
+        (is_match op = true ->          (* a bare /re/ after ~ is the dynamic-regex string, not a match against $0 *)
+           forall pe, not_regex_start (par false pe 7 r)) /\
+        (op = BConcat ->                (* the right operand must start with a token that cannot continue the left one *)
+           forall pe, concat_start (first_tok (par false pe 9 r)) = true /\
+                      tok_cont false (first_tok (par false pe 9 r)) <= 9)))
+  | ECond c t f => wf c /\ wf t /\ wf f
+  | EAssign l r => is_lvalue l = true /\ wf l /\ wf r
+  | EAugAssign op l r => aug_op op /\ is_lvalue l = true /\ wf l /\ wf r
+  | EIncr _ pre x =>
+      is_lvalue x = true /\ wf x /\
+      (pre = false -> match x with EField (EField _) => False | _ => True end)   (* $$x++ : see F-C04-3 *)
+  | _ => False
+  end.
